@@ -116,8 +116,20 @@ package api
 // requests and notifications are not responses
 //@ iface api.SenderInterface.Request
 //@   modifies outmisc
+// log of notifications handed to senders (C08, C07): ntn Notify calls so far (whatever their outcome);
+// nts/ntsrc/ntdst/ntcmd[k]: sender, source address, destination address and command of the k-th call
+//@ ghost ntn int
+//@ ghost nts map[int]any
+//@ ghost ntsrc map[int]*model.FeatureAddressType
+//@ ghost ntdst map[int]*model.FeatureAddressType
+//@ ghost ntcmd map[int]model.CmdType
+//@ modset NTLOG = ntn, nts, ntsrc, ntdst, ntcmd
 //@ iface api.SenderInterface.Notify
-//@   modifies outmisc
+//@   ensures ntn == old(ntn) + 1 && nts == store(old(nts), old(ntn), self) && ntsrc == store(old(ntsrc), old(ntn), senderAddress) && ntdst == store(old(ntdst), old(ntn), destinationAddress) && ntcmd == store(old(ntcmd), old(ntn), cmd)
+//@   modifies outmisc, @NTLOG
+// the subscriptions on a local server feature, as seen through the interface (body: C08)
+//@ iface api.SubscriptionManagerInterface.SubscriptionsOnFeature pure
+//@   ensures forall j int :: 0 <= j && j < len(result) ==> result[j] != nil && result[j].ClientFeature != nil && result[j].ServerFeature != nil
 //@ iface api.SenderInterface.Write
 //@   modifies outmisc
 //@ iface api.SenderInterface.Subscribe
@@ -139,7 +151,7 @@ package api
 //@   ensures result1 != nil ==> result1.ErrorNumber != model.ErrorNumberTypeNoError
 //@   modifies world
 //@ iface api.DeviceLocalInterface.NotifySubscribers
-//@   modifies outmisc, held
+//@   modifies outmisc, held, @NTLOG
 
 // registries and remote tree, as seen from node management (no responses are sent by them)
 //@ iface api.SubscriptionManagerInterface.AddSubscription
@@ -172,6 +184,7 @@ package api
 //@ iface api.DeviceInterface.DestinationData
 //@   modifies nothing
 //@ iface api.EntityLocalInterface.Information
+//@   ensures result != nil && fresh(result) && result.Description != nil && fresh(result.Description) && result.Description.EntityAddress == self.Address() && result.Description.EntityType != nil && *result.Description.EntityType == self.EntityType()
 //@   modifies nothing
 //@ iface api.FeatureLocalInterface.Information
 //@   modifies nothing
@@ -191,3 +204,33 @@ package api
 //@   ensures spawnn >= old(spawnn) && forall d int :: old(spawnn) <= d && d < spawnn ==> spawnfn[d] == methodid("(github.com/enbility/spine-go/api.EventHandlerInterface).HandleEvent")
 //@   ensures forall d int :: d < old(spawnn) ==> spawnfn[d] == old(spawnfn)[d]
 //@   modifies @SETLOG, @PUBLISH, outmisc, world
+
+// announced operations of a function (C07): read / write are announced exactly when allowed
+//@ iface api.OperationsInterface.Information
+//@   ensures result != nil && fresh(result) && ((result.Read != nil) <==> self.Read()) && ((result.Write != nil) <==> self.Write())
+//@   modifies nothing
+//@ iface api.FunctionDataInterface.FunctionType pure const
+
+// Log of calls into an entity's heartbeat manager (C16, C07): hbsetn SetLocalFeature calls (manager, feature),
+// hbstopn StopHeartbeat calls (manager)
+//@ ghost hbsetn int
+//@ ghost hbsetmgr map[int]any
+//@ ghost hbsetfeat map[int]any
+//@ ghost hbstopn int
+//@ ghost hbstopmgr map[int]any
+//@ iface api.EntityLocalInterface.HeartbeatManager pure const
+//@ iface api.HeartbeatManagerInterface.SetLocalFeature
+//@   ensures hbsetn == old(hbsetn) + 1 && hbsetmgr == store(old(hbsetmgr), old(hbsetn), self) && hbsetfeat == store(old(hbsetfeat), old(hbsetn), feature)
+//@   modifies hbsetn, hbsetmgr, hbsetfeat, held, chclosed, spawn, @SETLOG, @PUBLISH, outmisc, world
+//@ iface api.HeartbeatManagerInterface.StopHeartbeat
+//@   ensures hbstopn == old(hbstopn) + 1 && hbstopmgr == store(old(hbstopmgr), old(hbstopn), self)
+//@   modifies hbstopn, hbstopmgr, held, chclosed
+//@ iface api.FunctionDataInterface.SupportsPartialWrite pure const
+
+// teardown calls of a local entity (bodies: C20, C10): opaque here
+//@ iface api.EntityLocalInterface.RemoveAllUseCaseSupports
+//@   modifies @PUBLISH, outmisc, world, held, @NTLOG
+//@ iface api.EntityLocalInterface.RemoveAllSubscriptions
+//@   modifies @PUBLISH, outmisc, world, held
+//@ iface api.EntityLocalInterface.RemoveAllBindings
+//@   modifies @PUBLISH, outmisc, world, held
